@@ -301,7 +301,11 @@ def run_case(case):
                     sim.on_empty_return = None
                     sim.clear_actions()
                 now = sim.now
-                ctx = dict(step=label_step, result=repr(out)[:120], case=case)
+                try:
+                    shown = repr(out)[:120]
+                except Exception as e_:  # noqa  (an event whose repr() fails is still an event; say so in the report)
+                    shown = f"<{type(out).__name__}: repr() raised {type(e_).__name__}>"
+                ctx = dict(step=label_step, result=shown, case=case)
                 if trigger_failures:
                     res.viol("trigger_callback_raised", detail=trigger_failures[:2], **ctx)
                     return "stop"
